@@ -414,8 +414,9 @@ func stores(c *core.Ctx, tn string) {
 // dataRange checks R4 for one store. Accepted shapes (in the method itself or
 // in a same-package helper it returns through, with the helper's parameters
 // bound to the arguments):
-//   two returns:   if wpos >= size { return wpos - size, wpos }; return 0, wpos
-//   one return:    r := 0; if wpos >= size { r = wpos - size }; return r, wpos
+//
+//	two returns:   if wpos >= size { return wpos - size, wpos }; return 0, wpos
+//	one return:    r := 0; if wpos >= size { r = wpos - size }; return r, wpos
 func dataRange(c *core.Ctx, tn string, fn *core.Fn) {
 	info := fn.Pkg.TypesInfo
 	key := tn + ".dataRange"
